@@ -45,6 +45,23 @@ def gen(rng, tier, no, wide=False):
     case = C.gen_with(rng, C.every_rank_has_device, **force)
     if rng.random() < 0.03 and "filler" not in force:
         case = C.many_ranks(rng, case)
+    if rng.random() < 0.1:
+        # one file holding the activities of two devices of the process: the second device uses the same stream ids, each
+        # stream is serial on its own device, the two devices overlap in time
+        import copy
+        g = case["cfg"]["grid"]
+        for ev in case["ranks"].values():
+            dev = [e for e in ev if e.get("ph") == "X" and "dur" in e and isinstance((e.get("args") or {}).get("stream"), int) and e["args"]["stream"] >= 0
+                   and e.get("cat") in ("kernel", "gpu_memcpy", "gpu_memset")]
+            for e in dev:
+                d = copy.deepcopy(e)
+                d["pid"] = (e["pid"] if isinstance(e["pid"], int) else 0) + 7
+                d["ts"] = e["ts"] + g * rng.choice([1, 2, 3])
+                d["args"]["device"] = d["pid"]
+                if "correlation" in d["args"]:
+                    d["args"]["correlation"] = d["args"]["correlation"] + 50000000
+                d["args"].pop("External id", None)
+                ev.append(d)
     case["params"] = {"num_kernels": rng.choice([1, 1, 2, 2, 3, 4, 5, 8, 12]),
                       "duration_ratio": rng.choice([0.01, 0.2, 0.5, 0.8, 0.8, 0.9, 0.99, 1.0]),
                       "include_memory": rng.random() < 0.5}
